@@ -5870,7 +5870,14 @@ impl<'a> Tyck<'a> for TyEnvT<su::TermId> {
                 )?;
                 let (binder, binder_ty) = {
                     let ss::Type::App(ret_app_body_ty) = tycker.type_filled_k(&binder_ty)? else {
-                        unreachable!()
+                        // e.g. `fix () => ...`: the binder of a fixed point is not a thunk
+                        return tycker.err_k(
+                            TyckError::TypeExpected {
+                                expected: "`Thk _`".to_string(),
+                                found: binder_ty,
+                            },
+                            std::panic::Location::caller(),
+                        );
                     };
                     let ss::App(_ret_ty, body_ty) = ret_app_body_ty;
                     (binder, body_ty)
